@@ -1217,3 +1217,8 @@ mod tests {
     }
 
 }
+
+// Verification hook (add-only): compiled only under `cargo kani` or `--cfg heathcliff_verif`.
+#[cfg(any(kani, heathcliff_verif))]
+#[path = "/verif/incrate/ckks_encoder_v.rs"]
+pub(crate) mod verif_v;
